@@ -1138,3 +1138,37 @@ def feed_facts(ctx, rule, which):
     ctx.ob(rule, "bom-at-most-one-character/%s" % which, ok, "feed() drops at most one character (no loop, %d consuming call)" % len(nexts) if ok else
            "feed() consumes input in a loop or more than once (%s, %s): only the very first character of the stream can be a byte order mark - a second U+FEFF is text" % (loops, nexts),
            "%s tokenizer feed" % which)
+
+
+def no_value_without_name(ctx, rule, which):
+    """an attribute VALUE is collected only for an attribute that has a NAME: either finish_attribute empties the value buffer also
+    on its early return for an empty name, or no state outside the attribute-name / attribute-value states switches to a state
+    that collects a value.  (xml5ever's TagEmpty state - `<a /x>` - reconsumed in TagAttrValueBefore with no attribute started;
+    the `x`, never attached to a name, stayed in the buffer and was glued to the front of the first attribute value of the NEXT
+    tag - e.g. its xmlns declaration.)"""
+    T = ctx.tables(which)
+    rows = T["helpers"].get("finish_attribute")
+    if not rows:
+        raise AnchorMissing("finish_attribute not tabulated (%s)" % which)
+    clears_on_empty = True
+    n = 0
+    for pc in rows:
+        if any(v and re.search(r"current_attr_name\.is_empty\(\)|current_attr_name\.len\(\) matches 0", k) for k, v in pc["guards"].items()):
+            n += 1
+            txt = " ".join("%s(%s)" % (a, ",".join(str(x) for x in args)) for a, args in pc["actions"])
+            if not re.search(r"self\.current_attr_value\.clear\(|take\(self\.current_attr_value\)|take self\.current_attr_value|replace self\.current_attr_value|self\.current_attr_value\.take\(", txt):
+                clears_on_empty = False
+    is_value = (lambda s: bool(re.match(r"(TagAttrValue|AttributeValue|BeforeAttributeValue)", s)))
+    is_attr = (lambda s: bool(re.match(r"(TagAttrName|TagAttrValue|AttributeName|AfterAttributeName|BeforeAttributeValue|AttributeValue)", s)))
+    strays = set()
+    for sect in ("step", "eof_step"):
+        for st, cells in T[sect].items():
+            for pc in cells or []:
+                nx = str(pc.get("next") or "")
+                if is_value(nx) and not is_attr(st):
+                    strays.add((st, nx))
+    ok = clears_on_empty or not strays
+    ctx.ob(rule, "no-attribute-value-without-a-name/%s" % which, ok and n >= 1,
+           ("finish_attribute empties the value buffer on its empty-name return" if clears_on_empty else "value states are entered from attribute states only") if ok else
+           "state %s switches to %s with no attribute started, and finish_attribute returns for an empty name without emptying the value buffer: the collected characters are glued to the next attribute's value, in a later tag" % sorted(strays)[0],
+           "%s tokenizer finish_attribute / states" % which)
